@@ -119,35 +119,55 @@ theorem stage1_ok_tmpEmpty {r r1 : Run} {s : Schema} {l : List Index}
     have := execAll_tmpIndex_tmpEmpty (ct := ct) (fault := fault) l ra hte
     rw [h] at this; exact this
 
-/-! ## state at the entry of the `else` branch -/
+/-! ## state at the entry of the `else` branch
+
+All invariants are independent of who opens transactions (pysqlite legacy / AUTOCOMMIT / explicit BEGIN): the
+committed state is only ever replaced by a working state, and every working state along the run keeps the
+rows retrievable. -/
 
 def Copied (ct : ConvTable) (t0 : Tbl) (feeds : List (ColDef × Option Expr)) (t : Tbl) : Prop :=
   t.rows = copiedRows ct t0 feeds
 
+/-- the rows are retrievable from what a fresh connection would see right now -/
+def CommittedOk (ct : ConvTable) (t0 : Tbl) (feeds : List (ColDef × Option Expr)) (c : Conn) : Prop :=
+  Retrievable ct t0 feeds c.committed
+
 structure AtElse (ct : ConvTable) (t0 : Tbl) (feeds : List (ColDef × Option Expr)) (c : Conn) : Prop where
-  committed : c.committed.orig = some t0
-  inTxn : c.inTxn = true
+  committed : CommittedOk ct t0 feeds c
   worig : c.working.orig = none
   wtmp : ∃ t, c.working.tmp = some t ∧ Copied ct t0 feeds t
 
-/-- after the rename: the copy carries the original name, inside the still open transaction -/
+/-- after the rename: the copy carries the original name -/
 structure Renamed (ct : ConvTable) (t0 : Tbl) (feeds : List (ColDef × Option Expr)) (c : Conn) : Prop where
-  committed : c.committed.orig = some t0
-  inTxn : c.inTxn = true
+  committed : CommittedOk ct t0 feeds c
   wtmp : c.working.tmp = none
   worig : ∃ t, c.working.orig = some t ∧ Copied ct t0 feeds t
 
-/-- the original is in the committed state and a full copy is in the working state -/
+/-- the rows are retrievable from the committed and from the working state -/
 def Good (ct : ConvTable) (t0 : Tbl) (feeds : List (ColDef × Option Expr)) (c : Conn) : Prop :=
-  c.committed.orig = some t0 ∧ ∃ t, (c.working.orig = some t ∨ c.working.tmp = some t) ∧ Copied ct t0 feeds t
+  Retrievable ct t0 feeds c.committed ∧ Retrievable ct t0 feeds c.working
+
+theorem Intact.good {c : Conn} {f : List (ColDef × Option Expr)} (h : Intact t0 c) : Good ct t0 f c :=
+  ⟨.inl h.2, .inl h.1⟩
 
 theorem AtElse.good {c : Conn} {f : List (ColDef × Option Expr)} (h : AtElse ct t0 f c) : Good ct t0 f c :=
   let ⟨t, ht, hc⟩ := h.wtmp
-  ⟨h.committed, t, .inr ht, hc⟩
+  ⟨h.committed, .inr ⟨t, .inr ht, hc⟩⟩
 
 theorem Renamed.good {c : Conn} {f : List (ColDef × Option Expr)} (h : Renamed ct t0 f c) : Good ct t0 f c :=
   let ⟨t, ht, hc⟩ := h.worig
-  ⟨h.committed, t, .inl ht, hc⟩
+  ⟨h.committed, .inr ⟨t, .inl ht, hc⟩⟩
+
+/-- after a successful step the committed state is the old committed state or the new working state -/
+theorem step_none_committedOk {r : Run} {s : Stmt} {f : List (ColDef × Option Expr)}
+    (hs : (step ct fault r s).2 = none) (hc : CommittedOk ct t0 f r.conn)
+    (hw : Retrievable ct t0 f (step ct fault r s).1.conn.working) : CommittedOk ct t0 f (step ct fault r s).1.conn := by
+  obtain ⟨db, _, hwk, _, hcm⟩ := step_none hs
+  unfold CommittedOk
+  rw [hcm]
+  split
+  · exact hc
+  · rw [← hwk]; exact hw
 
 theorem try_ok_atElse {r r2 : Run} {f : List (ColDef × Option Expr)} (hi : Intact t0 r.conn) (hte : TmpEmpty r.conn)
     (h : execAll ct fault r [.insertSelect f, .dropOld] = (r2, none)) : AtElse ct t0 f r2.conn := by
@@ -156,30 +176,32 @@ theorem try_ok_atElse {r r2 : Run} {f : List (ColDef × Option Expr)} (hi : Inta
   · cases h
   · rename_i ra heq
     have hs : (step ct fault r (.insertSelect f)).2 = none := by rw [heq]
-    obtain ⟨db, hok, hw, htx, hcm⟩ := step_none hs
-    rw [heq] at hw htx hcm
-    simp only [Stmt.isDml, Bool.true_or, if_true] at htx hcm
+    obtain ⟨db, hok, hw, _, _⟩ := step_none hs
     obtain ⟨t, ht, hrows⟩ := hte
     simp only [applyStmt, hi.1, ht] at hok
     obtain ⟨rows, hins, rfl⟩ := map_ok hok
     have hrows' : rows = copiedRows ct t0 f := by
       have := insertRows_ok _ _ _ _ hins
       simpa [hrows, copiedRows] using this
+    have hca : CommittedOk ct t0 f ra.conn := by
+      have := step_none_committedOk (t0 := t0) (f := f) hs (.inl hi.2) (by rw [hw]; exact .inl rfl)
+      rw [heq] at this; exact this
+    rw [heq] at hw
     split at h
     · cases h
     · rename_i rb heq2
       have hs2 : (step ct fault ra .dropOld).2 = none := by rw [heq2]
-      obtain ⟨db2, hok2, hw2, htx2, hcm2⟩ := step_none hs2
-      rw [heq2] at hw2 htx2 hcm2
-      simp only [Stmt.isDml, htx, Bool.false_or, if_true] at htx2 hcm2
+      obtain ⟨db2, hok2, hw2, _, _⟩ := step_none hs2
       rw [hw] at hok2
       simp only [applyStmt] at hok2
       cases hok2
+      have hcb : CommittedOk ct t0 f rb.conn := by
+        have := step_none_committedOk (t0 := t0) (f := f) hs2 hca
+          (by rw [hw2]; exact .inr ⟨{ t with rows := rows }, .inr rfl, hrows'⟩)
+        rw [heq2] at this; exact this
+      rw [heq2] at hw2
       cases h
-      exact { committed := by rw [hcm2, hcm]; exact hi.2,
-              inTxn := htx2,
-              worig := by rw [hw2],
-              wtmp := ⟨{ t with rows := rows }, by rw [hw2], hrows'⟩ }
+      exact { committed := hcb, worig := by rw [hw2], wtmp := ⟨{ t with rows := rows }, by rw [hw2], hrows'⟩ }
 
 /-! ## the `else` branch -/
 
@@ -188,14 +210,14 @@ theorem step_createIndex_renamed {r : Run} {ix : Index} {f : List (ColDef × Opt
   cases hs : (step ct fault r (.createIndex ix)).2 with
   | some e => rw [step_err_conn hs rfl]; exact h
   | none =>
-    obtain ⟨db, hok, hw, htx, hcm⟩ := step_none hs
+    obtain ⟨db, hok, hw, _, _⟩ := step_none hs
     obtain ⟨t, ht, hc⟩ := h.worig
-    simp only [Stmt.isDml, h.inTxn, Bool.false_or, if_true] at htx hcm
     simp only [applyStmt, ht] at hok
     obtain ⟨t', hadd, rfl⟩ := map_ok hok
-    exact { committed := by rw [hcm]; exact h.committed, inTxn := htx,
+    have hcop : Copied ct t0 f t' := by unfold Copied; rw [addIndex_rows hadd]; exact hc
+    exact { committed := step_none_committedOk hs h.committed (by rw [hw]; exact .inr ⟨t', .inl rfl, hcop⟩),
             wtmp := by rw [hw]; exact h.wtmp,
-            worig := ⟨t', by rw [hw], by unfold Copied; rw [addIndex_rows hadd]; exact hc⟩ }
+            worig := ⟨t', by rw [hw], hcop⟩ }
 
 theorem execAll_createIndex_renamed {f : List (ColDef × Option Expr)} (l : List Index) : ∀ (r : Run), Renamed ct t0 f r.conn →
     Renamed ct t0 f (execAll ct fault r (l.map .createIndex)).1.conn := by
@@ -222,15 +244,14 @@ theorem elseBranch_post {r : Run} (h : AtElse ct t0 p.feeds r.conn) :
     exact ⟨by rw [hc]; exact h.good, by intro h'; cases h'⟩
   · rename_i r' heq
     have hs : (step ct fault r .renameTmp).2 = none := by rw [heq]
-    obtain ⟨db, hok, hw, htx, hcm⟩ := step_none hs
-    rw [heq] at hw htx hcm
+    obtain ⟨db, hok, hw, _, _⟩ := step_none hs
     obtain ⟨t, ht, hcp⟩ := h.wtmp
-    simp only [Stmt.isDml, h.inTxn, Bool.false_or, if_true] at htx hcm
     simp only [applyStmt, ht, h.worig] at hok
     cases hok
+    have hcm := step_none_committedOk (t0 := t0) (f := p.feeds) hs h.committed (by rw [hw]; exact .inr ⟨t, .inl rfl, hcp⟩)
+    rw [heq] at hw hcm
     have hr : Renamed ct t0 p.feeds r'.conn :=
-      { committed := by rw [hcm]; exact h.committed, inTxn := htx, wtmp := by rw [hw],
-        worig := ⟨t, by rw [hw], hcp⟩ }
+      { committed := hcm, wtmp := by rw [hw], worig := ⟨t, by rw [hw], hcp⟩ }
     split
     · exact ⟨hr.good, by intro h'; cases h'⟩
     · rename_i ixs _
@@ -238,18 +259,17 @@ theorem elseBranch_post {r : Run} (h : AtElse ct t0 p.feeds r.conn) :
       exact ⟨this.good, fun _ => this⟩
 
 theorem tryBlock_post {r : Run} (hi : Intact t0 r.conn) (hte : TmpEmpty r.conn) :
-    (Intact t0 (tryBlock ct fault p r).1.conn ∨ Good ct t0 p.feeds (tryBlock ct fault p r).1.conn) ∧
+    Good ct t0 p.feeds (tryBlock ct fault p r).1.conn ∧
     ((tryBlock ct fault p r).2 = none → Renamed ct t0 p.feeds (tryBlock ct fault p r).1.conn) := by
   unfold tryBlock
   split
   · rename_i r2 e heq
-    exact ⟨.inl (cleanup_intact (try_err_intact hi heq)), fun h => absurd h (cleanup_snd _ _)⟩
+    exact ⟨(cleanup_intact (try_err_intact hi heq)).good, fun h => absurd h (cleanup_snd _ _)⟩
   · rename_i r2 heq
-    have := elseBranch_post (ct := ct) (fault := fault) (p := p) (try_ok_atElse hi hte heq)
-    exact ⟨.inr this.1, this.2⟩
+    exact elseBranch_post (ct := ct) (fault := fault) (p := p) (try_ok_atElse hi hte heq)
 
 theorem create_post {r : Run} (hi : Intact t0 r.conn) :
-    (Intact t0 (create ct fault p r).1.conn ∨ Good ct t0 p.feeds (create ct fault p r).1.conn) ∧
+    Good ct t0 p.feeds (create ct fault p r).1.conn ∧
     ((create ct fault p r).2 = none → Renamed ct t0 p.feeds (create ct fault p r).1.conn) := by
   unfold create
   have h1 : Intact t0 (execAll ct fault r (.createTmp p.newSchema :: p.tmpIndexes.map .createTmpIndex)).1.conn :=
@@ -260,7 +280,7 @@ theorem create_post {r : Run} (hi : Intact t0 r.conn) :
   split
   · rename_i r1 e heq
     rw [heq] at h1
-    exact ⟨.inl h1, by intro h'; cases h'⟩
+    exact ⟨h1.good, by intro h'; cases h'⟩
   · rename_i r1 heq
     rw [heq] at h1
     exact tryBlock_post h1 (stage1_ok_tmpEmpty heq)
@@ -307,7 +327,7 @@ theorem cleanup_drops {r : Run} {e : Err} (h : TmpSome r.conn) : (cleanup ct non
   rw [cleanup_fst]
   obtain ⟨t, ht⟩ := h
   have hne : (none == some r.n) = false := rfl
-  simp only [step, hne, Conn.exec, Stmt.isDml, Bool.false_eq_true, if_false, applyStmt]
+  simp only [step, hne, Conn.exec, Stmt.isDml, Bool.false_and, Bool.false_eq_true, if_false, applyStmt]
   rw [ht]
   cases r.conn.inTxn <;> simp
 
@@ -345,7 +365,7 @@ theorem cleanup_gone {r : Run} {e : Err} (hts : TmpSome r.conn) (hnf : fault ≠
   rw [cleanup_fst]
   obtain ⟨t, ht⟩ := hts
   have hne : (fault == some r.n) = false := by simpa using hnf
-  simp only [step, hne, Conn.exec, Stmt.isDml, Bool.false_eq_true, if_false, applyStmt]
+  simp only [step, hne, Conn.exec, Stmt.isDml, Bool.false_and, Bool.false_eq_true, if_false, applyStmt]
   rw [ht]
   cases r.conn.inTxn <;> simp
 
@@ -421,7 +441,7 @@ theorem finish_tmpBoth {b : Bool} {x : Run × Option Err} (h : TmpBoth x.1.conn)
 theorem step_ddl_inTxn {r : Run} {s : Stmt} (hd : s.isDml = false) : (step ct fault r s).1.conn.inTxn = r.conn.inTxn := by
   cases hs : (step ct fault r s).2 with
   | some e => rw [step_err_conn hs hd]
-  | none => obtain ⟨_, _, _, htx, _⟩ := step_none hs; rw [htx, hd]; simp
+  | none => obtain ⟨_, _, _, htx, _⟩ := step_none hs; rw [htx]; simp [opens, hd]
 
 theorem step_tmpIndex_both {r : Run} {ix : Index} (h : TmpBoth r.conn) (htx : r.conn.inTxn = false) :
     TmpBoth (step ct fault r (.createTmpIndex ix)).1.conn := by
@@ -432,7 +452,7 @@ theorem step_tmpIndex_both {r : Run} {ix : Index} (h : TmpBoth r.conn) (htx : r.
     obtain ⟨t, ht⟩ := h.1
     simp only [applyStmt, ht] at hok
     obtain ⟨t', _, rfl⟩ := map_ok hok
-    simp only [Stmt.isDml, htx, Bool.or_self, Bool.false_eq_true, if_false] at hcm
+    simp only [opens, Stmt.isDml, Bool.false_and, htx, Bool.or_self, Bool.false_eq_true, if_false] at hcm
     exact ⟨⟨t', by rw [hw]⟩, ⟨t', by rw [hcm]⟩⟩
 
 theorem execAll_tmpIndex_both (l : List Index) : ∀ (r : Run), TmpBoth r.conn → r.conn.inTxn = false →
@@ -465,7 +485,7 @@ theorem stage1_tail_left {r r1 : Run} {e : Err} {s : Schema} {l : List Index} (h
     have hs : (step ct fault r (.createTmp s)).2 = none := by rw [heq]
     obtain ⟨db, hok, hw, htx', hcm⟩ := step_none hs
     rw [heq] at hw htx' hcm
-    simp only [Stmt.isDml, htx, Bool.or_self, Bool.false_eq_true, if_false] at htx' hcm
+    simp only [opens, Stmt.isDml, Bool.false_and, htx, Bool.or_self, Bool.false_eq_true, if_false] at htx' hcm
     have hboth : TmpBoth ra.conn := by
       simp only [applyStmt] at hok
       split at hok
@@ -497,7 +517,7 @@ theorem stage1_ok_both {r r1 : Run} {s : Schema} {l : List Index} (htx : r.conn.
     have hs : (step ct fault r (.createTmp s)).2 = none := by rw [heq]
     obtain ⟨db, hok, hw, htx', hcm⟩ := step_none hs
     rw [heq] at hw htx' hcm
-    simp only [Stmt.isDml, htx, Bool.or_self, Bool.false_eq_true, if_false] at htx' hcm
+    simp only [opens, Stmt.isDml, Bool.false_and, htx, Bool.or_self, Bool.false_eq_true, if_false] at htx' hcm
     have hboth : TmpBoth ra.conn := by
       simp only [applyStmt] at hok
       split at hok
@@ -588,6 +608,60 @@ theorem create_rolledback_tmp_left {r : Run} (htx0 : r.conn.inTxn = false)
           simp only [finish, hsome, Bool.or_false, Bool.false_eq_true, if_false, Conn.rollback]
           rw [hcl, hcm2, ht]; simp
 
+/-! ## inside one real transaction (the BEGIN recipe) nothing reaches the committed state -/
+
+/-- the connection is inside a transaction and a fresh connection still sees `db` -/
+def InTxnOver (db : Db) (c : Conn) : Prop := c.inTxn = true ∧ c.committed = db
+
+theorem step_inTxnOver {db : Db} {r : Run} {s : Stmt} (h : InTxnOver db r.conn) : InTxnOver db (step ct fault r s).1.conn := by
+  unfold step
+  split
+  · exact h
+  · simp only [Conn.exec]
+    cases ho : (s.isDml && r.conn.implicitBegin) <;> simp only [Bool.false_eq_true, if_false, if_true]
+    · split
+      · exact h
+      · simp only [h.1, if_true]; exact ⟨rfl, h.2⟩
+    · split
+      · exact ⟨rfl, h.2⟩
+      · exact ⟨rfl, h.2⟩
+
+theorem execAll_inTxnOver {db : Db} (l : List Stmt) : ∀ (r : Run), InTxnOver db r.conn → InTxnOver db (execAll ct fault r l).1.conn := by
+  induction l with
+  | nil => intro r h; simpa [execAll] using h
+  | cons s rest ih =>
+    intro r h
+    have h1 := step_inTxnOver (ct := ct) (fault := fault) (s := s) h
+    simp only [execAll]
+    split
+    · rename_i r' e heq; rw [heq] at h1; exact h1
+    · rename_i r' heq; rw [heq] at h1; exact ih r' h1
+
+theorem create_inTxnOver {db : Db} {r : Run} (h : InTxnOver db r.conn) : InTxnOver db (create ct fault p r).1.conn := by
+  unfold create
+  have h1 := execAll_inTxnOver (ct := ct) (fault := fault) (.createTmp p.newSchema :: p.tmpIndexes.map .createTmpIndex) r h
+  split
+  · rename_i r1 e heq; rw [heq] at h1; exact h1
+  · rename_i r1 heq
+    rw [heq] at h1
+    unfold tryBlock
+    have h2 := execAll_inTxnOver (ct := ct) (fault := fault) [.insertSelect p.feeds, .dropOld] r1 h1
+    split
+    · rename_i r2 e htry
+      rw [htry] at h2
+      rw [cleanup_fst]; exact step_inTxnOver h2
+    · rename_i r2 htry
+      rw [htry] at h2
+      unfold elseBranch
+      have h3 := step_inTxnOver (ct := ct) (fault := fault) (s := .renameTmp) h2
+      split
+      · rename_i r3 e heq3; rw [heq3] at h3; exact h3
+      · rename_i r3 heq3
+        rw [heq3] at h3
+        split
+        · exact h3
+        · exact execAll_inTxnOver _ _ h3
+
 /-! ## a fault at statement `k ≤ index(DROP original)` -/
 
 theorem create_intact_of_fault {r : Run} {k : Nat} (hi : Intact t0 r.conn) (hn : r.n = 0) (hk : fault = some k)
@@ -616,14 +690,10 @@ theorem create_intact_of_fault {r : Run} {k : Nat} (hi : Intact t0 r.conn) (hn :
       · exact hf2 k hk ⟨by omega, by omega⟩
 
 theorem finish_retrievable {b : Bool} {x : Run × Option Err} {f : List (ColDef × Option Expr)}
-    (h : Intact t0 x.1.conn ∨ Good ct t0 f x.1.conn) : Retrievable ct t0 f (finish b x).committed := by
+    (h : Good ct t0 f x.1.conn) : Retrievable ct t0 f (finish b x).committed := by
   unfold finish
-  rcases h with h | ⟨hc, t, ht, hcp⟩
-  · split
-    · exact .inl h.1
-    · exact .inl h.2
-  · split
-    · exact .inr ⟨t, ht, hcp⟩
-    · exact .inl hc
+  split
+  · exact h.2
+  · exact h.1
 
 end Lemmas.Batch
